@@ -141,6 +141,44 @@ def run(ctx):
     import c07
     c07.check_memo(ctx_alias(ctx, "R01.4"))
     c07.check_use_site(ctx_alias(ctx, "R01.4"))
+    import c06
+    c06.check_edge_selection(ctx_alias(ctx, "R01.7"), [f for f in db.fns.values() if f.crate == "wac_graph"])
+    validator_features(ctx)
+
+
+def validator_features(ctx):
+    """R01.8: every place that builds a wasmparser Validator (package acceptance in wac-types, the optional final
+    validation of encode, any other) uses the same feature-set expression: a package accepted at registration under a
+    wider set than the final validation would make `encode` fail post hoc for a composition every operation accepted;
+    a narrower acceptance set rejects what the output may contain."""
+    db, prov = ctx.db, ctx.prov
+    sites = []
+    for f in db.fns.values():
+        if f.crate not in ("wac_graph", "wac_types", "wac_parser", "wac_resolver", "wac_cli", "wac") or f.from_expansion:
+            continue
+        for t in f.calls():
+            p = t.path or ""
+            if not p.startswith("wasmparser::validator::Validator::new"):
+                continue
+            if p.endswith("::new"):
+                sig = ("<Validator::new: default features>",)
+            else:
+                sl = prov.slice(f, t.args[0])
+                sig = tuple(sorted({(c.path or "?") for _, c in sl.calls} | {str(c) for c in sl.consts})) or ("<unknown>",)
+            sites.append((f, t, sig))
+            ctx.touch(f)
+    ref = None
+    for f, t, sig in sites:
+        if f.id.endswith("Package::from_bytes"):
+            ref = sig
+    ctx.ob("R01.8", "acceptance-site", ref is not None, "the package acceptance validator (Package::from_bytes) was found: %s" % (ref,), nontrivial=False)
+    for f, t, sig in sites:
+        ok = ref is not None and sig == ref
+        ctx.ob("R01.8", "features|%s" % f.id, ok,
+               "validator feature set %s is the one packages are accepted under" % (sig,) if ok else
+               "validator built with %s but packages are accepted under %s: a composition of accepted packages can fail the final validation (or an acceptable package is refused)" % (sig, ref),
+               site="%s in %s" % (t.span, f.id))
+    ctx.floor("R01.8", 3)
 
 
 class ctx_alias:
